@@ -188,10 +188,10 @@ func (e *fnEnc) setEdge(c *blockCtx, succ *ssa.BasicBlock, cond Term) {
 	if old, ok := e.edge[key]; ok {
 		cond = or(old, cond) // both branches of an If go to the same block
 	}
-	ec := e.declare(fmt.Sprintf("edge.%d.%d", c.b.Index, succ.Index), SBool)
+	ec := e.declare(fmt.Sprintf("edge.%s%d.%d", e.ns, c.b.Index, succ.Index), SBool)
 	if _, ok := e.edge[key]; ok {
 		// redefine: drop is not possible, so use a second constant
-		ec = e.freshConst(fmt.Sprintf("edge.%d.%d", c.b.Index, succ.Index), SBool)
+		ec = e.freshConst(fmt.Sprintf("edge.%s%d.%d", e.ns, c.b.Index, succ.Index), SBool)
 	}
 	e.assert(eq(ec, cond))
 	e.edge[key] = ec
